@@ -293,3 +293,25 @@ pub fn types(ctx: &Ctx) {
         ctx.nontrivial();
     }
 }
+
+/// scale: strings whose length crosses 65535 bytes / characters (ASCII, 2-byte and 4-byte
+/// characters, markup characters) in every string field, and 300 registered extensions
+pub fn scale(ctx: &Ctx) {
+    let k = ctx.pick("scale-case", 9);
+    let p = if k < 8 {
+        let unit = ["a", "\u{e4}", "\u{10348}", "<&>"][k % 4];
+        let chars = [65535usize, 70001][k / 4];
+        let long: String = unit.repeat(chars / unit.chars().count() + 1);
+        let vals = Vals { strings: vec![long, "short".into()], s0: 0, floats: vec![0.5], f0: 0, pose_kind: 0 };
+        build(&|_| true, &vals, k % 5, 0)
+    } else {
+        let mut p = build_public(&|_| true, 1);
+        for i in 0..300 {
+            p.ops.insert(0, Op::Ext(format!("x{i}"), format!("http://example.com/ns/{i}")));
+        }
+        p
+    };
+    if judge(ctx, &p) {
+        ctx.nontrivial();
+    }
+}
